@@ -378,6 +378,12 @@ pub fn knobs(profile: &str) -> Knobs {
             callers: (1, 2), ops: (20, 50), keys: (2, 5), max_weights: vec![40, 200, 400], mixw: [30, 30, 8, 28, 2, 1, 1],
             ttl_pct: 80, pou_ttl_pct: 85, await_pcts: vec![70, 100, 100], advance_pcts: vec![15, 25, 35], max_advances: vec![1, 1, 2, 3],
             sweeper_pcts: vec![60, 100], stall_sweeper_pct: 10, ttls: vec![1, 2, 3, 4, 6], heavy_pct: 0, observe_pct: 40, shards: vec![2, 2, 2, 4], pou_ttls: vec![2, 4, 5, 6, 8, 10], ..d },
+        // weight-changing upserts of keys that are about to expire (C01, C05): the worker's weight update against the sweeper's
+        // release of the same key id; meant for the lock grain ("lg-updrace")
+        "updrace" => Knobs {
+            callers: (1, 2), ops: (30, 60), keys: (2, 3), max_weights: vec![40, 200], mixw: [30, 50, 2, 12, 2, 4, 0],
+            ttl_pct: 100, weight_pct: 100, pou_ttl_pct: 0, await_pcts: vec![0, 30, 70], advance_pcts: vec![15, 25, 35], max_advances: vec![1, 1, 2],
+            sweeper_pcts: vec![100], stall_sweeper_pct: 0, ttls: vec![1, 1, 2, 3], heavy_pct: 0, shards: vec![2, 2, 4], sticky: vec![0, 0, 50], ..d },
         // memory pressure: small caches, many puts, frequency profiles
         "pressure" => Knobs {
             callers: (1, 3), ops: (20, 50), keys: (5, 12), max_weights: vec![4, 6, 9, 10, 15], mixw: [50, 12, 6, 26, 3, 3, 0],
@@ -412,7 +418,19 @@ pub fn knobs(profile: &str) -> Knobs {
     }
 }
 
+/// the schedule points in front of every traced lock acquisition ("lock grain")
+pub const LOCK_SITES: &[&str] = &["L_AcqR", "L_AcqW"];
+
 pub fn generate(profile: &str, seed: u64, count: usize) -> Vec<Scenario> {
+    // "lg-<profile>": the same histories, interleaved at the grain of the lock acquisitions as well
+    if let Some(base) = profile.strip_prefix("lg-") {
+        let mut scenarios = generate(base, seed ^ 0x1c9, count);
+        for scenario in scenarios.iter_mut() {
+            scenario.name = format!("lg-{}", scenario.name);
+            scenario.yield_sites.extend(sites(LOCK_SITES));
+        }
+        return scenarios;
+    }
     let mut gen = Gen::new(seed);
     let mut scenarios = Vec::new();
     for index in 0..count {
@@ -527,6 +545,10 @@ pub fn generate(profile: &str, seed: u64, count: usize) -> Vec<Scenario> {
                 kn.final_reads = true;
                 let mut sc = gen.history(&name, &kn);
                 sc.cfg.max_weight = gen.pick(&[1, 24, 25, 26, 49, 100, 1 << 20]);
+                // (total cache weights at and just below i64::MAX, in the two-zone encoding; chosen from the scenario's own seed bits
+                //  so that the generator's random stream stays what it was)
+                let huge_cache = match &sc.schedule { Schedule::Random { seed, .. } => seed % 4 == 1, _ => false };
+                if huge_cache { sc.cfg.max_weight = crate::driver::BIG + 1 + (sc.cfg.clock0 % 3); }
                 sc.cfg.counters = gen.pick(&[1, 1, 2, 3, 4]);
                 sc.cfg.qsize = gen.pick(&[1, 1, 2]);
                 sc.cfg.pool = gen.pick(&[1, 1, 2]);
